@@ -169,6 +169,47 @@ def run_near(case, ctx):
 # ---- metric computations as requests ----------------------------------------------------------
 METRIC_POOL = ["bs", "bsrel", "bsres", "bss", "ign0", "spherical", "marginalratio", "bsunc", "ets", "hit", "mae", "corr", "quantilescore", "pit",
                "obs:iqr", "fcst:iqr", "obs:median", "fcst:0.9", "mae:iqr", "obs:range", "fcst:std", "rmse:median", "obs:max", "rankcorr", "kendallcorr"]
+# diagrams drawn (Output._plot_core) on the same long-lived object: they query it like any other client and must leave it as they found it
+FIG_THR = {"reliability": "Reliability", "invreliability": "InvReliability", "discrimination": "Discrimination", "roc": "Roc", "droc": "DRoc",
+           "droc0": "DRoc0", "performance": "Performance", "economicvalue": "EconomicValue", "igncontrib": "IgnContrib", "bsdecomp": "BsDecomp",
+           "murphy": "Murphy", "marginal": "Marginal", "freq": "Freq", "cond": "Cond"}
+FIG_PLAIN = {"obsfcst": "ObsFcst", "qq": "QQ", "scatter": "Scatter", "taylor": "Taylor", "error": "Error", "against": "Against", "timeseries": "TimeSeries",
+             "pithist": "PitHist", "spreadskill": "SpreadSkill", "meteo": "Meteo", "change": "Change"}
+FIG_POOL = ["fig:" + k for k in list(FIG_THR) + list(FIG_PLAIN)]
+
+
+def draw_figure(data, name, case):
+    """Draw diagram `name` on `data` the way the driver does (no file is written). -> False when not applicable."""
+    import numpy as np
+    import matplotlib.pyplot as mpl
+    import verif.output
+    import verif.axis
+    mpl.close("all")
+    if name in FIG_THR:
+        if not case["thresholds"]:
+            return False
+        pl = getattr(verif.output, FIG_THR[name])()
+        if name in ("freq", "cond", "marginal", "bsdecomp"):
+            pl.thresholds = np.array(case["thresholds"], float)
+        else:
+            if case["bin_type"] in model.WITHIN_TYPES and name in ("droc", "droc0", "performance"):
+                return False
+            pl.thresholds = np.array(case["thresholds"][:2] if case["bin_type"] in model.WITHIN_TYPES else case["thresholds"][:1], float)
+        pl.bin_type = case["bin_type"]
+    else:
+        pl = getattr(verif.output, FIG_PLAIN[name])()
+        if name in ("spreadskill", "meteo") and case["quantiles"]:
+            pl.quantiles = np.array(case["quantiles"], float)
+    if pl.supports_x and name not in ("taylor", "error", "performance"):
+        pl.axis = verif.axis.get(case["axis"])
+    pl.filename = None
+    try:
+        pl._plot_core(data)
+    except SystemExit:
+        return False
+    finally:
+        mpl.close("all")
+    return True
 
 
 def metric_strategy(tier):
@@ -186,7 +227,7 @@ def metric_strategy(tier):
         if b in model.WITHIN_TYPES and len(th) < 2:
             b = "above"
         T = th[:2] if b in model.WITHIN_TYPES else th[:1]
-        names = draw(st.lists(st.sampled_from(METRIC_POOL), min_size=2, max_size=4))
+        names = draw(st.lists(st.sampled_from(METRIC_POOL + FIG_POOL), min_size=2, max_size=4))
         return {"spec": spec, "metrics": names, "bin_type": b, "thresholds": T, "quantiles": qs[:1],
                 "axis": draw(st.sampled_from(["no", "leadtime", "location", "time"]))}
     return s()
@@ -206,7 +247,66 @@ def check_metrics(case, ctx):
     done = []
     import verif.axis
     probes = [[("obs",)], [("fcst",)], [("obs",), ("fcst",)]]
+    menu = gen.common_menu(spec)
+    wide = probes + [F for F in menu if F not in probes]
+    if case["thresholds"]:
+        wide.append([("obs",), ("thr", case["thresholds"][0])])
+        wide.append([("obs",), ("fcst",), ("thr", case["thresholds"][0])])
+    handed = []   # (arrays handed out, copies taken then, description)
+    vax = mat.vaxis(case["axis"])
+
+    def probe_all(which, after):
+        """every probe request on the long-lived object against a fresh object; -> False after reporting a difference"""
+        fresh_data = mat.make_data(spec)
+        for F in which:
+            vF = [mat.vfield(f) for f in F]
+            for i in range(len(spec["inputs"])):
+                # ("no", None) is how the diagrams ask for the pooled cases: the same request as ("no", 0), but its own cache entry
+                for ax_name, ax, nk in ((case["axis"], vax, ds.n_slices(case["axis"])), ("all", verif.axis.All(), 1), ("no", verif.axis.No(), 1)):
+                    for k in range(nk):
+                        kk = None if ax_name in ("all", "no") else k
+                        try:
+                            a = data.get_scores(vF, i, ax, kk)
+                            b = fresh_data.get_scores(vF, i, ax, kk)
+                        except SystemExit:
+                            continue
+                        ctx.evals += 1
+                        if any(not cmpx.arrays_equal(x, y) for x, y in zip(a, b)):
+                            ctx.fail("C18/fresh/after-metric", dict(sub, metrics=case["metrics"][:step + 1]),
+                                     "after computing %r, request %r (input %d, %s slice %r) returns %r, a fresh object %r"
+                                     % (after, F, i, ax_name, kk, [np.asarray(x).ravel()[:6].tolist() for x in a], [np.asarray(x).ravel()[:6].tolist() for x in b]))
+                            return False
+                        if len(handed) < 400:
+                            handed.append((list(a), [np.array(x, copy=True) for x in a], (F, i, ax_name, kk)))
+        return True
+
+    def earlier_ok(after):
+        for arrs, copies, what in handed:
+            if any(not cmpx.arrays_equal(x, y) for x, y in zip(arrs, copies)):
+                ctx.fail("C18/earlier/after-metric", dict(sub, metrics=case["metrics"][:step + 1]),
+                         "arrays handed out earlier for %r were altered by computing %r" % (what, after))
+                return False
+        return True
+
     for step, name in enumerate(case["metrics"]):
+        if name.startswith("fig:"):
+            if not handed:
+                if not probe_all(wide, done):
+                    return
+            try:
+                ok = draw_figure(data, name[4:], case)
+            except Exception:
+                ctx.label("figure-step/exception (C19's business)")
+                return
+            if not ok:
+                continue
+            ctx.evals += 1
+            ctx.label("figure-step/" + name[4:])
+            ctx.nt(("figure-history", case["metrics"][:step + 1], case["bin_type"], case["thresholds"], ds.times, [d["fcst"] for d in spec["inputs"]]))
+            done.append(name)
+            if not earlier_ok(done) or not probe_all(wide, done):
+                return
+            continue
         agg = None
         if ":" in name:
             name, agg = name.split(":")
@@ -238,21 +338,10 @@ def check_metrics(case, ctx):
                      % (name, case["bin_type"], case["thresholds"], done, np.asarray(got).ravel()[:6].tolist(), np.asarray(fresh).ravel()[:6].tolist()))
             return
         done.append(name if not agg else name + ":" + agg)
-        # ... and the arrays the object hands out afterwards are what a fresh object hands out (same order, same values)
-        vax = mat.vaxis(case["axis"])
-        fresh_data = mat.make_data(spec)
-        for F in probes:
-            vF = [mat.vfield(f) for f in F]
-            for i in range(len(spec["inputs"])):
-                for k in range(ds.n_slices(case["axis"])):
-                    a = data.get_scores(vF, i, vax, k)
-                    b = fresh_data.get_scores(vF, i, vax, k)
-                    ctx.evals += 1
-                    if any(not cmpx.arrays_equal(x, y) for x, y in zip(a, b)):
-                        ctx.fail("C18/fresh/after-metric", dict(sub, metrics=case["metrics"][:step + 1]),
-                                 "after computing %r, request %r (input %d, %s slice %d) returns %r, a fresh object %r"
-                                 % (done, F, i, case["axis"], k, [np.asarray(x).ravel()[:6].tolist() for x in a], [np.asarray(x).ravel()[:6].tolist() for x in b]))
-                        return
+        # ... and the arrays the object hands out afterwards are what a fresh object hands out (same order, same values),
+        # and the arrays it handed out before are untouched
+        if not earlier_ok(done) or not probe_all(probes if step % 2 else wide, done):
+            return
 
 
 def resolve(spec, ds, menu, r):
